@@ -35,6 +35,7 @@ from common import Violation, parse_sexp
 
 TITLE = "variable allocation and decoding"
 LEVEL = "proof"
+DOMAINS = ['Decode', 'Design']
 
 
 class RealCodeTimeout(BaseException):
